@@ -1,8 +1,8 @@
 CONSTANTS
   Contracts = {"timelock", "multisig", "oraclelock", "refundlock", "voting", "inc", "sum", "erc20", "testcases", "sft", "payer"}
-  ArgClasses = {"valid", "valid2", "over", "missing", "garbage", "short"}
+  ArgClasses = {"valid", "valid2", "over", "missing", "garbage", "short", "toself", "tosender"}
   AmtClasses = {"zero", "low", "some", "big"}
-  GasClasses = {"zero", "small", "exact", "enough"}
+  GasClasses = {"zero", "small", "smallhalf", "smallrem", "exact", "enough"}
   Roles = {"owner", "other", "voter"}
   MaxDev = 2
   Deep = FALSE
